@@ -59,6 +59,12 @@ CLAIMED = {
             "plus zero/negative/out-of-range magnitudes; the expected unit is computed from the statement, not from the "
             "selection code, with the exact magnitude deciding the side of each boundary.",
             TRUST_E1, "5.5"),
+    "C06": (E2, "exhaustive enumeration of a bounded program grammar (all ordered type pairs x 6 operators; all derivation graphs with <= 2 derived types), each program type-checked by rustc against the real crate and compared with the model's closure of the declared derivations",
+            "All 1350 catalogue programs in both back-ends, 150 astronomical and 672 cross-crate programs, and 80 derivation "
+            "graphs with their complete program sets (or whole-crate rejection where derivations collide): 22 810 verdicts, "
+            "each compared with the verdict and result type predicted from the declarations. Rejected programs carry no "
+            "type ascription, so an unexpected operator with any result type is caught.",
+            "Trusted: rustc's type checker, the declared derivations in data/catalogue.json, attribution of diagnostics to programs by line. Graphs with more than two derived types or three base types are outside the bound.", "5.6"),
     "C07": (E1, "exhaustive enumeration of the finite unit catalogue against an independently written definition table chained with exact rationals",
             "The domain is finite and is enumerated completely: every unit of every predefined and synthetic quantity in "
             "both back-ends, every accessor, every pair of SI-prefixed units.",
